@@ -74,6 +74,17 @@ func (c *Ctx) replayVerdict(rf *ReplayFile) (bool, string) {
 			return true, fmt.Sprintf("under init order %s: %s vs %s", mode, outcomeSig(a.op("t")), outcomeSig(b.op("t")))
 		}
 		return false, "trace equals the reference under init order " + mode
+	case rf.Class == "shared-write":
+		r := c.Pool.RunFresh(rf.Spec)
+		for _, mc := range r.MapConflicts {
+			if w := c.conflictWhere(mc); w == rf.Where {
+				return true, c.conflictDetail(mc)
+			}
+		}
+		if len(r.MapConflicts) > 0 {
+			return true, "another map is written by two tasks: " + c.conflictDetail(r.MapConflicts[0])
+		}
+		return false, "no map is written by two tasks of this run"
 	case rf.Class == "rerun-differs":
 		a := c.Pool.RunFresh(rf.Spec)
 		b := c.Pool.RunFresh(rf.Spec)
